@@ -454,7 +454,15 @@ func (c *conn) WriteTo(w io.Writer) (n int64, err error) {
 }
 
 func (c *conn) Flush() error {
-	return c.loop.write(c)
+	if err := c.loop.write(c); err != nil {
+		return err
+	}
+	// In LT mode only Write/Writev arm the writable event; data that ReadFrom put into the
+	// outbound buffer and that could not be written out completely needs it as well.
+	if c.opened && !c.loop.engine.opts.EdgeTriggeredIO && !c.outboundBuffer.IsEmpty() {
+		return c.loop.poller.ModReadWrite(&c.pollAttachment, false)
+	}
+	return nil
 }
 
 func (c *conn) InboundBuffered() int {
